@@ -239,8 +239,11 @@ SPollEnd(o, res, infl, timers) ==
               THEN Bad(o2, "C11", "timer count differs from in-flight count", "") ELSE o2
       o4 == IF quiet /\ res = "pending" /\ o.unflushed > 0 /\ o.lastflush # "pending"
               THEN Bad(o3, "C14", "idle with unflushed items and no flush pending", "") ELSE o3
-      o5 == IF o.read.id >= 0 /\ ~o.read.dup /\ ~o.read.amb /\ res \in {"pending", "item", "end"}
+      o5a == IF o.read.id >= 0 /\ ~o.read.dup /\ ~o.read.amb /\ res \in {"pending", "item", "end"}
               THEN Bad(o4, "C08", "request read but neither yielded, refused nor a duplicate", "") ELSE o4
+      \* the channel died (without any injected fault) while a request it had read at its limit was still unanswered
+      o5 == IF quiet /\ res = "err" /\ o.read.id >= 0 /\ ~o.read.dup /\ o.limit >= 0 /\ o.read.omin >= o.limit
+              THEN Bad(o5a, "C12", "refused request did not receive its throttle response", "") ELSE o5a
       \* requests whose deadline has definitely passed are over once the channel has polled
       gone == {p \in o5.tracked : ~MaybeAlive(o5, p[2])}
       o6 == IF f6now \/ res # "pending" THEN o5 ELSE ExpireAll(o5, gone)
